@@ -58,15 +58,34 @@ fn unit_case(rng: &mut Rng, rep: &mut Report) {
     let y = angle_value(rng);
     let b = rads(y);
     let k = rng.f32_in(-4.0, 4.0);
-    let ok = (a + b).to_rads().to_bits() == (x + y).to_bits()
-        && (a - b).to_rads().to_bits() == (x - y).to_bits()
-        && (-a).to_rads().to_bits() == (-x).to_bits()
-        && (a * k).to_rads().to_bits() == (x * k).to_bits()
-        && (k == 0.0 || (a / k).to_rads().to_bits() == (x / k).to_bits())
-        // (the sign of min/max of zeros of mixed sign is unspecified)
-        && (a.min(b).to_rads().to_bits() == x.min(y).to_bits() || (x == 0.0 && y == 0.0 && a.min(b).to_rads() == 0.0))
-        && (a.max(b).to_rads().to_bits() == x.max(y).to_bits() || (x == 0.0 && y == 0.0 && a.max(b).to_rads() == 0.0))
-        && (y == 0.0 || (a % b).to_rads().to_bits() == (x % y).to_bits());
+    // "act on the underlying magnitude": the same value as the f32 operation
+    // on the radian magnitudes — bit for bit as the library stands, but a
+    // representation in another unit or width would differ by a rounding of
+    // the operands and the result, so up to 8 ulps of the largest magnitude
+    // involved are allowed (and counted when used). The sign of a zero from
+    // min/max of zeros of mixed sign is unspecified.
+    let mut inexact = false;
+    let mut near = |got: f32, exp: f32, scale: f32| -> bool {
+        if got.to_bits() == exp.to_bits() || (got == 0.0 && exp == 0.0) {
+            return true;
+        }
+        let ok = (got as f64 - exp as f64).abs() <= 8.0 * EPS * (scale.abs() as f64).max(exp.abs() as f64) + 1e-37;
+        inexact |= ok;
+        ok
+    };
+    let m = x.abs().max(y.abs());
+    let ok = near((a + b).to_rads(), x + y, m)
+        && near((a - b).to_rads(), x - y, m)
+        && near((-a).to_rads(), -x, x)
+        && near((a * k).to_rads(), x * k, x * k)
+        && (k == 0.0 || near((a / k).to_rads(), x / k, x / k))
+        && near(a.min(b).to_rads(), x.min(y), m)
+        && near(a.max(b).to_rads(), x.max(y), m)
+        // the remainder is discontinuous: compare modulo |y|
+        && (y == 0.0 || {
+            let (g, e) = ((a % b).to_rads(), x % y);
+            near(g, e, m) || near(g.abs() + e.abs(), y.abs(), m)
+        });
     if !ok {
         rep.violation("angle.operators", format!("an operator on Angle does not act on the underlying magnitude: a={x} b={y} k={k}"), cj().set("other", f32s(y)));
         return;
@@ -74,9 +93,12 @@ fn unit_case(rng: &mut Rng, rep: &mut Report) {
     let (lo, hi) = (x.min(y), x.max(y));
     let z = angle_value(rng);
     let c = rads(z).clamp(rads(lo), rads(hi)).to_rads();
-    if c.to_bits() != z.clamp(lo, hi).to_bits() {
+    if !near(c, z.clamp(lo, hi), z.abs().max(m)) {
         rep.violation("angle.clamp", format!("rads({z}).clamp({lo},{hi}) = {c}"), cj());
         return;
+    }
+    if inexact {
+        rep.count("operators.equal_within_8_ulps_but_not_bit_for_bit");
     }
     // trig
     let r = catch(|| (a.sin(), a.cos(), a.sin_cos(), a.tan()));
